@@ -36,6 +36,16 @@ class SymList:
         self.length = length
 
 
+class SymStr:
+    """String of known length whose characters are code points (concrete ints or symbolic ints)."""
+
+    def __init__(self, chars):
+        self.chars = list(chars)
+
+    def __len__(self):
+        return len(self.chars)
+
+
 class Obj:
     """Instance of a repository class (or converted namedtuple): class info + attribute dict."""
 
